@@ -13,7 +13,7 @@
 
 static ref_arena RA;
 enum { D_TYPE, D_CTX, D_CONTENT, D_ENC, D_LFORM, D_IFORM, D_BW, D_PAGES, D_CODEC, D_CRC, D_STATS, D_DOFS, D_UNKNOWN, D_TFORM, D_PATTERN, D_NRG, D_UNSUP, ND };
-static const int DSZ[ND] = { 8, 8, 12, 3, 7, 7, 7, 4, 7, 2, 7, 2, 33, 4, 4, 2, 10 };
+static const int DSZ[ND] = { 8, 8, 12, 3, 7, 7, 7, 4, 9, 2, 7, 2, 33, 4, 7, 2, 10 };
 static const char* DN[ND] = { "type", "ctx", "content", "enc", "level_form", "index_form", "index_bw", "pages", "codec", "crc", "stats", "dict_offset", "unknown", "thrift_form", "pattern", "row_groups", "unsupported" };
 static const char* UNSUP[] = { "", "delta-binary-packed", "delta-length-byte-array", "delta-byte-array", "byte-stream-split", "data-page-v2", "bit-packed-levels", "codec-lzo", "codec-brotli", "codec-99" };
 
@@ -59,13 +59,13 @@ static void build(const int* ch, rfile_t* f, const lvseq_t* explicit_seq) {
     static const int BW[] = { 0, 1, 2, 108, 109, 116, 132 }; f->index_bw_extra = BW[ch[D_BW]];
     switch (ch[D_PAGES]) { case 1: f->npages[0] = 2; f->page_levels[0][0] = N / 2; f->page_levels[0][1] = N - N / 2; break; case 2: f->npages[0] = 3; f->page_levels[0][0] = 1; f->page_levels[0][1] = N - 2; f->page_levels[0][2] = 1; break;
                           case 3: f->npages[0] = N > 8 ? 8 : N; for (int i = 0; i < f->npages[0]; i++) f->page_levels[0][i] = 1; f->page_levels[0][f->npages[0] - 1] += N - f->npages[0]; break; default: break; }
-    static const int CD[] = { CODEC_NONE, CODEC_SNAPPY, CODEC_GZIP, CODEC_ZSTD, CODEC_LZ4_RAW, CODEC_SNAPPY, CODEC_ZSTD }; f->codec = CD[ch[D_CODEC]]; g_cform = ch[D_CODEC] >= 5;      /* 5, 6: the other valid stream forms (one-literal Snappy, Zstd frame without content size) */
+    static const int CD[] = { CODEC_NONE, CODEC_SNAPPY, CODEC_GZIP, CODEC_ZSTD, CODEC_LZ4_RAW, CODEC_SNAPPY, CODEC_ZSTD, CODEC_SNAPPY, CODEC_LZ4_RAW }; f->codec = CD[ch[D_CODEC]]; g_cform = ch[D_CODEC] >= 7 ? 2 : ch[D_CODEC] >= 5;      /* 5, 6: the other valid stream forms (one-literal Snappy, Zstd frame without content size); 7, 8: streams of a greedy matcher (real copies) */
     f->crc = ch[D_CRC] == 0;
     switch (ch[D_STATS]) { case 1: f->chunk_stats[0] = stat_new(); break; case 2: f->chunk_stats[0] = stat_old(); break; case 3: f->chunk_stats[0] = stat_both(); f->page_stats[0] = stat_new(); break; case 4: f->page_stats[0] = stat_both(); break; case 5: f->page_stats[0] = stat_long(60); f->chunk_stats[0] = stat_long(60); break; case 6: f->page_stats[0] = stat_long(150); break; default: break; }
     f->dict_offset_present = ch[D_DOFS] == 0; f->data_offset_at_dict = ch[D_DOFS] == 1;
     if (ch[D_UNKNOWN]) { f->fl.unknown_kind = (ch[D_UNKNOWN] - 1) % 16 + 1; f->fl.unknown_at_end = (ch[D_UNKNOWN] - 1) / 16; }
     f->fl.tform.long_field_headers = ch[D_TFORM] & 1; f->fl.tform.long_list_headers = (ch[D_TFORM] >> 1) & 1; f->fl.created_by = "ref_pq"; f->fl.kv = ch[D_TFORM] >= 2;
-    f->pattern = ch[D_PATTERN]; f->nrg = ch[D_NRG] ? 2 : 1;
+    f->pattern = ch[D_PATTERN] >= 4 ? ch[D_PATTERN] + 6 : ch[D_PATTERN]; f->nrg = ch[D_NRG] ? 2 : 1;      /* 4..6 -> patterns 10..12: values repeating with a period of 1, 2, 3 rows */
     switch (ch[D_UNSUP]) { case 1: f->enc[0] = ENC_DELTA_BINARY; break; case 2: f->enc[0] = ENC_DELTA_LENGTH; break; case 3: f->enc[0] = ENC_DELTA_BYTE_ARRAY; break; case 4: f->enc[0] = ENC_BSS; break; case 5: f->v2 = true; break;
                           case 6: f->level_encoding = ENC_BIT_PACKED; break; default: break; }
 }
@@ -144,7 +144,7 @@ static void run(const int* ch, int ndev, void* ctxp) {
 static void enumerate(void) {
     mc_rule("C06: files written by the independent reference writer. Stage 1: every valid (repetition, definition) level sequence of up to 5/6 entries for each of 8 nesting contexts (flat required/optional, optional group, repeated leaf, 3-level list, "
             "doubly repeated, required>optional>repeated) under three base layouts. Stage 2: every file with at most 3 (quick) / 4 (thorough) of 17 layout dimensions off the default, each deviating dimension over its whole alphabet: physical type (8 incl. INT96), "
-            "nesting context, content, value encoding (PLAIN / PLAIN_DICTIONARY / RLE_DICTIONARY), 7 hybrid forms for levels and for indices, index bit width (minimal..32), page split, codec (5 + the one-literal Snappy form and the Zstd frame without content size), CRC, statistics (new/deprecated/both/page), "
+            "nesting context, content, value encoding (PLAIN / PLAIN_DICTIONARY / RLE_DICTIONARY), 7 hybrid forms for levels and for indices, index bit width (minimal..32), page split, codec (5 + the one-literal Snappy form, the Zstd frame without content size, and Snappy/LZ4 streams of a greedy matcher with real copies), CRC, statistics (new/deprecated/both/page), "
             "dictionary_page_offset present/absent, unknown Thrift fields (16 kinds x 2 positions in every struct), long-form headers, value pattern, row groups, and one unsupported feature (4 encodings, data page v2, BIT_PACKED levels, 3 codec ids). "
             "Oracle: carquet_column_read_batch returns exactly the stored def levels, rep levels and dense values; for unsupported features: an error or the correct values, never other values and never a silent end of data. "
             "Every reference file is first validated by the reference reader. Non-trivial = every file; distinct by choice-vector hash.");
@@ -177,6 +177,27 @@ static void enumerate(void) {
               if (!cr) mc_fail("large-page.column-open-failed", "code %d %s", err.code, err.message);
               else { uint8_t* vb = mc_exact(NULL, (size_t)w * (size_t)f.N); int64_t got = carquet_column_read_batch(cr, vb, f.N, NULL, NULL);
                   if (got != f.N || memcmp(vb, cols[0].fixed, (size_t)w * (size_t)f.N)) { char key[96]; snprintf(key, sizeof key, "large-page.read.%s.%s", CDF[ci][0] == CODEC_SNAPPY ? "snappy" : CDF[ci][0] == CODEC_ZSTD ? "zstd" : CDF[ci][0] == CODEC_GZIP ? "gzip" : CDF[ci][0] == CODEC_LZ4_RAW ? "lz4" : "uncompressed", CDF[ci][1] ? "alternative-stream-form" : "default-stream-form"); mc_fail(key, "read_batch(%d) returned %lld or wrong values", f.N, (long long)got); }
+                  free(vb); carquet_column_reader_free(cr); }
+              carquet_reader_close(rd); }
+          free(x); ref_buf_free(&img); ref_arena_free(&RA);
+      } }
+    /* pages whose values repeat with a short period, compressed by a reference compressor that emits real matches: copy distances of
+     * width x period bytes (1..48) with long lengths, in Snappy and LZ4 */
+    mc_stage("repeating-values.real-matches");
+    { static const struct { int pt, tl; const char* n; } TYS[] = { { PT_INT32, 0, "i32" }, { PT_INT64, 0, "i64" }, { PT_DOUBLE, 0, "f64" }, { PT_INT96, 0, "i96" }, { PT_FLBA, 1, "flba1" }, { PT_FLBA, 3, "flba3" }, { PT_FLBA, 5, "flba5" }, { PT_FLBA, 7, "flba7" }, { PT_FLBA, 16, "flba16" } };
+      static const int NN[] = { 8, 40, 300, 5000 }; static const int CDF[] = { CODEC_SNAPPY, CODEC_LZ4_RAW };
+      for (int ti = 0; ti < 9; ti++) for (int per = 1; per <= 3; per++) for (int ni = 0; ni < 4; ni++) for (int ci = 0; ci < 2; ci++) for (int pg = 0; pg < 2; pg++) {
+          if (!mc_next()) continue;
+          rfile_t f; memset(&f, 0, sizeof f); f.ncols = 1; f.N = NN[ni]; f.nrg = 1; f.codec = CDF[ci]; f.crc = true; f.dict_offset_present = true; f.pattern = 9 + per; f.col[0].ptype = TYS[ti].pt; f.col[0].tlen = TYS[ti].tl; f.enc[0] = ENC_PLAIN;
+          if (pg) { f.npages[0] = 2; f.page_levels[0][0] = f.N / 2 + 1; f.page_levels[0][1] = f.N - f.N / 2 - 1; }
+          mc_desc("c06:repeating;n=%d;type=%s;period=%d-rows;codec=%d;pages=%d", f.N, TYS[ti].n, per, CDF[ci], pg + 1); mc_case_key(mc_mix(0xc06c, ((uint64_t)ti << 24) | ((uint64_t)per << 16) | ((uint64_t)ni << 8) | ((uint64_t)ci << 1) | (uint64_t)pg)); mc_nontrivial();
+          ref_buf img; ref_buf_init(&img); static ref_coldata cols[4]; int np = 0; ref_compress_form = 2; int wrc = rf_build(&RA, &f, &img, NULL, 0, &np, cols); ref_compress_form = 0; if (wrc) mc_harness_error("reference writer failed (repeating values)");
+          uint8_t* x = mc_exact(img.p, img.n); carquet_error_t err = CARQUET_ERROR_INIT; carquet_reader_t* rd = carquet_reader_open_buffer(x, img.n, NULL, &err);
+          if (!rd) mc_fail("repeating.open-failed", "code %d %s", err.code, err.message);
+          else { carquet_column_reader_t* cr = carquet_reader_get_column(rd, 0, 0, &err); int w = ref_type_width(TYS[ti].pt, TYS[ti].tl);
+              if (!cr) mc_fail("repeating.column-open-failed", "code %d %s", err.code, err.message);
+              else { uint8_t* vb = mc_exact(NULL, (size_t)w * (size_t)f.N); int64_t got = carquet_column_read_batch(cr, vb, f.N, NULL, NULL);
+                  if (got != f.N || memcmp(vb, cols[0].fixed, (size_t)w * (size_t)f.N)) { char key[96]; snprintf(key, sizeof key, "repeating.read.%s", CDF[ci] == CODEC_SNAPPY ? "snappy" : "lz4"); mc_fail(key, "read_batch(%d) returned %lld or wrong values (copy distance %d bytes)", f.N, (long long)got, w * per); }
                   free(vb); carquet_column_reader_free(cr); }
               carquet_reader_close(rd); }
           free(x); ref_buf_free(&img); ref_arena_free(&RA);
